@@ -172,6 +172,12 @@ func (p *Peer) SendCheckpoint(index types.ChainIndex, n *consensus.Network, time
 		r.State.Network = n
 		if r.Block.V2 == nil || len(r.Block.MinerPayouts) != 1 {
 			err = errors.New("checkpoint is not a v2 block")
+		} else if len(r.Block.Transactions) != 0 {
+			// a checkpoint block is applied to the supplied state with an
+			// empty v1 supplement (there is nothing to build one from), and
+			// consensus.ApplyBlock indexes the supplement once per v1
+			// transaction: such a block would crash the caller
+			err = errors.New("checkpoint block contains v1 transactions")
 		} else if r.Block.ID() != index.ID {
 			err = errors.New("checkpoint has wrong index")
 		} else if r.Block.V2.Commitment != r.State.Commitment(r.Block.MinerPayouts[0].Address, r.Block.Transactions, r.Block.V2Transactions()) {
